@@ -1,4 +1,4 @@
-import Oracle.SpecText
+import Oracle.SpecElem
 
 def main : IO UInt32 :=
-  Oracle.run (Oracle.mkTable Gen.table) Oracle.fullSpecTable
+  Oracle.run (Oracle.mkTable Gen.table) Oracle.allSpecTable
